@@ -360,7 +360,6 @@ class Gen:
             cmp, cmp, cmp,
             lambda d: ("bin", r.choice(["&", "|"]), g("bool", d), g("bool", d)),
             lambda d: ("bin", r.choice(["&", "|"]), g("bool", d), g("bool", d)),
-            lambda d: ("rbin", r.choice(["&", "|"]), r.choice([True, False]), g("bool", d)),
             lambda d: ("not", g("bool", d)),
             lambda d: ("isnull", g(r.choice(["int", "str", "bool", "bool"]), d)),
             lambda d: ("isnotnull", g(r.choice(["int", "str", "bool", "bool"]), d)),
@@ -397,8 +396,7 @@ def exhaustive(max_depth=2):
                 ("substr", S, ("py", 1), ("py", 2)), ("alias", S, "z")],
         "bool": [("bin", "==", A, B), ("bin", "!=", A, ("py", 1)), ("bin", "<", A, B), ("bin", "<=", A, B),
                  ("bin", ">", A, ("py", 0)), ("bin", ">=", A, B), ("bin", "==", S, ("py", "a")), ("bin", "<", S, T),
-                 ("bin", "==", P, Q), ("bin", "&", P, Q), ("bin", "|", P, Q), ("rbin", "&", True, P),
-                 ("rbin", "|", False, P), ("rbin", "&", False, P), ("not", P), ("isnull", A), ("isnull", P),
+                 ("bin", "==", P, Q), ("bin", "&", P, Q), ("bin", "|", P, Q), ("not", P), ("isnull", A), ("isnull", P),
                  ("isnotnull", A), ("isnotnull", P), ("nse", A, B), ("nse", P, Q), ("nse", S, ("py", "a")),
                  ("isin", A, [1, 2]), ("isin", S, ["a", None]), ("between", A, ("py", 0), B), ("between", S, ("py", "a"), T),
                  ("like", S, "a%"), ("ilike", S, "A%"), ("rlike", S, "a"), ("startswith", S, ("py", "a")),
@@ -419,7 +417,6 @@ def exhaustive(max_depth=2):
         (lambda x, y: ("bin", "==", x, y), ["bool", "bool"]), (lambda x, y: ("bin", "!=", x, y), ["bool", "bool"]),
         (lambda x, y: ("bin", "==", x, y), ["str", "str"]),
         (lambda x, y: ("bin", "&", x, y), ["bool", "bool"]), (lambda x, y: ("bin", "|", x, y), ["bool", "bool"]),
-        (lambda x: ("rbin", "&", True, x), ["bool"]), (lambda x: ("rbin", "|", False, x), ["bool"]),
         (lambda x: ("not", x), ["bool"]),
         (lambda x: ("isnull", x), ["bool"]), (lambda x: ("isnull", x), ["int"]),
         (lambda x: ("isnotnull", x), ["bool"]), (lambda x: ("isnotnull", x), ["int"]),
